@@ -92,7 +92,7 @@ func HarnessC08Claim() {
 	}
 
 	s.FaultAt = zz.Choose("fault.at", 7) - 1
-	s.FaultKind = 1 + zz.Choose("fault.kind", 2)
+	s.FaultKind = 1 + zz.Choose("fault.kind", 3)
 	opts := []ReconcilerOption{}
 	if zz.Bool("syncer.ssa") {
 		opts = append(opts, WithCompositeSyncer(NewServerSideCompositeSyncer(s, names.NewNameGenerator(s))))
@@ -173,7 +173,7 @@ func HarnessC08ClaimLifecycle() {
 	req := reconcile.Request{NamespacedName: types.NamespacedName{Namespace: "team", Name: "cm"}}
 
 	s.FaultAt = zz.Choose("fault.at", zz.Bound(8, 10)) - 1
-	s.FaultKind = 1 + zz.Choose("fault.kind", 2)
+	s.FaultKind = 1 + zz.Choose("fault.kind", 3)
 	// another actor writes the claim just before the reconcile's k-th call
 	raceAt := zz.Choose("otherWriter.at", zz.Bound(8, 10)) - 1
 	s.BeforeCall = func(n int) {
